@@ -8,6 +8,7 @@ import (
 	"os"
 	"sort"
 	"strings"
+	"sync"
 	"testing"
 	"time"
 	"verif/harness/ref"
@@ -173,8 +174,13 @@ func runC08(s *c08Scenario, faultIdx, kind int) *c08Result {
 	c := &ev.Ctx{}
 	r := newDRun(s.D, c)
 	w := r.b.W
+	// the queue taints, un-taints and deletes the candidates of a command in parallel goroutines: what the monitors
+	// record is guarded
+	var recMu sync.Mutex
 	violate := func(sig, format string, a ...any) {
+		recMu.Lock()
 		res.violations = append(res.violations, ev.Violation{Sig: sig, What: fmt.Sprintf(format, a...)})
+		recMu.Unlock()
 	}
 
 	// ---- the harness's record of commands
@@ -246,7 +252,9 @@ func runC08(s *c08Scenario, faultIdx, kind int) *c08Result {
 			violate("queue-deletes-unknown-claim", "the queue deletes NodeClaim %s which is not a candidate of any command the controller computed", call.Key)
 			return
 		}
+		recMu.Lock()
 		res.deletes++
+		recMu.Unlock()
 		for i, rp := range rec.replacements {
 			if rp.Name == "" {
 				violate("candidate-deleted-before-replacement-created", "the queue deletes candidate %s of a %s command while replacement #%d was never created", call.Key, rec.method, i)
